@@ -519,7 +519,7 @@ def finish(prop, tier, seed, mod, results, wall):
             'functions_encoded': info.get('functions', []),
             'bounds': info.get('bounds', {}).get(tier, info.get('bounds', {})),
             'outside_bounds': info.get('outside', ''),
-            'stubs': symx.STUBS,
+            'stubs': symx.STUBS + info.get('stubs', []),
             'solver': 'z3 %s (python API), per-path incremental solver' % z3.get_version_string(),
             'exhaustive': False,
             'explanation': info.get('explanation', ''),
